@@ -16,11 +16,12 @@ INVARIANTS = ["CacheSound", "AcceptedImpliesAuthorised", "AuthorisedImpliesAccep
 MALLOC = {"MALLOC_TOP_PAD_": 268435456, "MALLOC_TRIM_THRESHOLD_": 1073741824}
 
 RULE = ("model: Predicates_MC enumerates every transaction of 1..MaxIn predicate inputs over 10 outcome variants (authorised; declared gas "
-        "one short / one too much; wrong owner; returns zero; reverts; panics; never terminates; second program; need above the "
+        "one short / one too much; wrong owner; returns zero; returns two; panics; never terminates; second program; need above the "
         "estimation cap) x EVERY completion order of the tasks, in verification and in estimation mode, plus signed/predicate mixes "
-        "over 7 witness vectors; one REPLAY line per final state, each replayed into the real code (check_signatures, "
+        "over 7 witness vectors; one REPLAY line per final state (with 4 inputs: those over the 7 core variants; all 10 variants are "
+        "model-checked), each replayed into the real code (check_signatures, "
         "check_predicates, check_predicates_async with the dictated completion order, into_checked, estimate_predicates(_async) "
-        "then verification) for 3 input-kind rotations. traces: seeded random transactions (6 input kinds, shared witnesses, garbage "
+        "then verification) with the input kinds (coin / message-coin / message-data), memory mode and executor rotated per behaviour. traces: seeded random transactions (6 input kinds, shared witnesses, garbage "
         "witnesses, signatures over other ids, descriptor and opaque programs, 4 gas schedules, 3 memory modes, lazy and threaded "
         "executors) plus every single-field mutation of accepted transactions. distinct_nontrivial = distinct (abstract "
         "transaction, mode, completion order) behaviours replayed + distinct (event kind, verdict, sub-case) tuples of the traces, "
@@ -182,8 +183,12 @@ def run(pid, tier):
         vlib.harness_build(BIN)
         keys = set()
         # ---------------- Leg M + Leg R: all completion orders x all outcome combinations ----------------
-        r1 = _replay(chk, pid, "preds", 4 if thorough else 3, 1 if thorough else 3, keys)
+        import time
+        t0 = time.time()
+        r1 = _replay(chk, pid, "preds", 4 if thorough else 3, 3 if thorough else 2, keys)
+        log("[C20] model + replay 'preds' %.1fs" % (time.time() - t0))
         r2 = _replay(chk, pid, "mixed", 3 if thorough else 2, 3, keys)
+        log("[C20] model + replay 'mixed' %.1fs" % (time.time() - t0))
         chk.set("model", dict(spec=SPEC_MC, profiles={"preds": dict(MaxIn=4 if thorough else 3, distinct_states=r1.distinct),
                                                       "mixed": dict(MaxIn=3 if thorough else 2, distinct_states=r2.distinct)},
                               invariants=INVARIANTS))
@@ -191,7 +196,9 @@ def run(pid, tier):
         tr = os.path.join(vlib.WORK, "%s_trace.ndjson" % pid)
         vlib.vh(["record", "pred", "--tier", tier, "-o", tr], bin=BIN, timeout=2400, env=MALLOC)
         events = vlib.read_ndjson(tr)
-        nev, nseg, st = tc.validate(chk, "pred", SPEC_TR, tr, tag=pid, timeout=2400, parallel=4)
+        log("[C20] trace recorded (%d events) %.1fs" % (len(events), time.time() - t0))
+        nev, nseg, st = tc.validate(chk, "pred", SPEC_TR, tr, tag=pid, timeout=2400, parallel=4 if thorough else 2)
+        log("[C20] trace validated %.1fs" % (time.time() - t0))
         chk.add("states", st)
         chk.add("transitions", st)
         chk.set("host_panics_recorded", len([e for e in events if e.get("ev") == "HostPanic"]))
